@@ -984,7 +984,8 @@ def shp5(units, R, fname='cJSON_Compare'):
     if fname not in u.functions:
         raise AnalysisBroken('SHP5: %s not found' % fname)
     fn = u.functions[fname]
-    scal = [(1, None), (2, None), (4, None), (8, 1.0), (8, 2.0), (16, b'x'), (16, b'X'), (128, b'x')]
+    scal = [(1, None), (2, None), (4, None), (8, 1.0), (8, 2.0), (16, b'x'), (16, b'X'), (128, b'x'),
+            (8 | IS_REFERENCE, 1.0), (8 | IS_REFERENCE, 2.0), (16 | IS_REFERENCE, b'x'), (16 | IS_REFERENCE, b'y'), (2 | STRING_IS_CONST, None)]
 
     def build(heap, spec, name):
         kind = spec[0]
@@ -1002,10 +1003,14 @@ def shp5(units, R, fname='cJSON_Compare'):
                 f['prev'] = kids[i - 1] if i > 0 else kids[-1]
             heap.nodes[node[1]]['child'] = kids[0] if kids else None
             return node
-        return heap.new(name, type=kind, valuestring=('str', spec[1]) if kind in (16, 128) else None,
-                        valuedouble=spec[1] if kind == 8 else 0, valueint=int(spec[1]) if kind == 8 else 0)
+        base = kind & 0xFF
+        return heap.new(name, type=kind, valuestring=('str', spec[1]) if base in (16, 128) else None,
+                        valuedouble=spec[1] if base == 8 else 0, valueint=int(spec[1]) if base == 8 else 0)
 
     def equal(x, y, cs):
+        # the ownership flags (reference, constant key) take no part
+        x = (x[0] & 0xFF,) + tuple(x[1:])
+        y = (y[0] & 0xFF,) + tuple(y[1:])
         if x[0] != y[0]:
             return False
         if x[0] in (1, 2, 4):
